@@ -41,6 +41,7 @@ const SITE_NAMES: &[&str] = &[
     "CssSkip",
     "SinkOp",
     "BorderStretch",
+    "Step",
     "ProbeTooNarrow",
     "ProbeVertTable",
     "ProbeOverflowWrap",
@@ -86,6 +87,15 @@ pub struct Agg {
     pub fault_free_runs: u64,
     pub max_depth: u64,
     pub doc_bytes: u64,
+    /// slowest single run (wall clock, diagnostic only: watches the margin to the stall backstop)
+    #[serde(default)]
+    pub slowest_run_ms: u64,
+    #[serde(default)]
+    pub slowest_run_index: u64,
+    #[serde(default)]
+    pub runs_with_variants: u64,
+    #[serde(default)]
+    pub runs_repeat_checked: u64,
     pub samples: Vec<serde_json::Value>,
 }
 
@@ -130,6 +140,12 @@ impl Agg {
         self.fault_free_runs += o.fault_free_runs;
         self.max_depth = self.max_depth.max(o.max_depth);
         self.doc_bytes += o.doc_bytes;
+        if o.slowest_run_ms > self.slowest_run_ms {
+            self.slowest_run_ms = o.slowest_run_ms;
+            self.slowest_run_index = o.slowest_run_index;
+        }
+        self.runs_with_variants += o.runs_with_variants;
+        self.runs_repeat_checked += o.runs_repeat_checked;
         if self.samples.len() < 4 {
             for s in o.samples {
                 if self.samples.len() < 4 {
@@ -257,6 +273,12 @@ fn account(agg: &mut Agg, scen: &Scenario, index: u64, ev: &crate::eval::Eval) {
         agg.fault_free_runs += 1;
     }
     agg.max_depth = agg.max_depth.max(scen.doc.depth() as u64);
+    if !scen.variants.is_empty() {
+        agg.runs_with_variants += 1;
+    }
+    if scen.repeat_check {
+        agg.runs_repeat_checked += 1;
+    }
     if agg.samples.len() < 2 && nt {
         agg.samples.push(sample_of(scen, index, ev));
     }
@@ -321,7 +343,13 @@ pub fn cmd_worker(args: &[String]) -> i32 {
                     writeln!(out, "S {}", idx).unwrap();
                     out.flush().unwrap();
                     let scen = generate(&prop, seed, idx, quick);
+                    let t0 = Instant::now();
                     let ev = evaluate(&scen, false);
+                    let ms = t0.elapsed().as_millis() as u64;
+                    if ms > agg.slowest_run_ms {
+                        agg.slowest_run_ms = ms;
+                        agg.slowest_run_index = idx;
+                    }
                     account(&mut agg, &scen, idx, &ev);
                     if let Some(v) = ev.violation {
                         let rf = ReplayFile {
@@ -1271,6 +1299,11 @@ fn write_evidence(
             "scheduler_policies": agg.policies,
             "threads_per_run": agg.threads_hist,
             "max_nesting_depth": agg.max_depth,
+            "slowest_run_wall_ms": agg.slowest_run_ms,
+            "slowest_run_index": agg.slowest_run_index,
+            "stall_backstop_s": STALL_SECS,
+            "runs_with_a_second_document_or_configuration": agg.runs_with_variants,
+            "runs_executed_twice_for_repeat_check": agg.runs_repeat_checked,
             "worker_processes": workers,
             "worker_deaths_attributed": aborts,
             "known_findings_hit": known_hits,
